@@ -102,29 +102,35 @@ Qed.
 Definition attrs (n : node) : bool * bool * bytes * Z * Z * Z * Z :=
   (ndir n, nhasdir n, ndata n, nmode n, nmtime n, nuid n, ngid n).
 Definition attrs_kept (s s' : mst) : Prop :=
+  length (mheap s') = length (mheap s) /\ mhandles s' = mhandles s /\
   forall r n, get_node s r = Some n -> exists n', get_node s' r = Some n' /\ attrs n' = attrs n.
 
 Lemma attrs_kept_refl s : attrs_kept s s.
-Proof. intros r n H. now exists n. Qed.
+Proof. split; [reflexivity|]. split; [reflexivity|]. intros r n H. now exists n. Qed.
 Lemma attrs_kept_trans s1 s2 s3 : attrs_kept s1 s2 -> attrs_kept s2 s3 -> attrs_kept s1 s3.
 Proof.
-  intros H1 H2 r n Hr. destruct (H1 r n Hr) as (n2 & Hn2 & E2). destruct (H2 r n2 Hn2) as (n3 & Hn3 & E3).
+  intros (L1 & M1 & H1) (L2 & M2 & H2). split; [congruence|]. split; [congruence|].
+  intros r n Hr. destruct (H1 r n Hr) as (n2 & Hn2 & E2). destruct (H2 r n2 Hn2) as (n3 & Hn3 & E3).
   exists n3. split; [exact Hn3 | congruence].
 Qed.
+Lemma mheap_upd_len s r g : length (mheap (upd_node s r g)) = length (mheap s).
+Proof. unfold upd_node. destruct (get_node s r); [|reflexivity]. cbn. apply list_set_len. Qed.
 Lemma attrs_upd s r g : (forall m, attrs (g m) = attrs m) -> attrs_kept s (upd_node s r g).
 Proof.
-  intros Hg x n Hx. rewrite get_upd. destruct (Nat.eqb r x) eqn:E.
+  intros Hg. split; [apply mheap_upd_len|]. split; [apply mhandles_upd|]. intros x n Hx. rewrite get_upd. destruct (Nat.eqb r x) eqn:E.
   - apply Nat.eqb_eq in E. subst x. rewrite Hx. cbn. exists (g n). auto.
   - exists n. auto.
 Qed.
 Lemma attrs_move s f k2 : attrs_kept s (move_key s f k2).
 Proof.
+  split; [unfold move_key, set_data; cbn [mheap]; apply mheap_upd_len|].
+  split; [unfold move_key, set_data; cbn [mhandles]; apply mhandles_upd|].
   intros x n Hx. rewrite get_move_key. destruct (Nat.eqb f x) eqn:E.
   - apply Nat.eqb_eq in E. subst x. rewrite Hx. cbn. exists (with_name k2 n). auto.
   - exists n. auto.
 Qed.
-Lemma attrs_kept_heap s s' : mheap s' = mheap s -> attrs_kept s s'.
-Proof. intros H r n Hr. exists n. unfold get_node in *. now rewrite H. Qed.
+Lemma attrs_kept_heap s s' : mheap s' = mheap s -> mhandles s' = mhandles s -> attrs_kept s s'.
+Proof. intros H Hh. split; [now rewrite H|]. split; [exact Hh|]. intros r n Hr. exists n. unfold get_node in *. now rewrite H. Qed.
 
 Lemma nodup_snoc {A} (l : list A) x : NoDup l -> ~ In x l -> NoDup (l ++ [x]).
 Proof.
@@ -472,6 +478,8 @@ Proof.
 Qed.
 Lemma mheap_fold_del ks : forall s, mheap (fold_left del_key ks s) = mheap s.
 Proof. induction ks as [|k ks IH]; intros s; [reflexivity|]. cbn [fold_left]. now rewrite IH. Qed.
+Lemma mhandles_fold_del ks : forall s, mhandles (fold_left del_key ks s) = mhandles s.
+Proof. induction ks as [|k ks IH]; intros s; [reflexivity|]. cbn [fold_left]. now rewrite IH. Qed.
 
 Lemma rw_at k0 : atbelow old k0 -> atbelow new (rwk k0).
 Proof.
@@ -594,7 +602,8 @@ Proof.
   pose proof (del_all _ _ Hnd' D4) as D6.
   pose proof (lookup_fold_del (removes ++ [old]) s4) as L6.
   pose proof (mheap_fold_del (removes ++ [old]) s4) as H6.
-  rewrite fold_left_app in D6, L6, H6. cbn [fold_left] in D6, L6, H6.
+  pose proof (mhandles_fold_del (removes ++ [old]) s4) as Hh6.
+  rewrite fold_left_app in D6, L6, H6, Hh6. cbn [fold_left] in D6, L6, H6, Hh6.
   set (s5 := fold_left del_key removes s4) in *. set (s6 := del_key s5 old) in *.
   assert (Ebody : rename_body s = (reg s6 f 0, ROk)).
   { unfold rename_body. rewrite Hun. cbv zeta. fold s3. rewrite Hloop. rewrite (fold_del_key removes s4). reflexivity. }
@@ -641,7 +650,7 @@ Proof.
   - eapply attrs_kept_trans; [apply (attrs_upd s q0 (del_kid old)); reflexivity|].
     eapply attrs_kept_trans; [apply (attrs_move s1 f new)|].
     eapply attrs_kept_trans; [exact (lf_attrs _ _ F4)|].
-    eapply attrs_kept_trans; [apply (attrs_kept_heap s4 s6); exact H6|].
+    eapply attrs_kept_trans; [apply (attrs_kept_heap s4 s6); [exact H6 | exact Hh6]|].
     apply (attrs_upd s6 pp (set_kid new f)). reflexivity.
   - intros k0 Hat. rewrite lookup_upd, L6.
     destruct (in_dec str_eq_dec (rwk k0) (removes ++ [old])) as [I|I]; [|now apply Hsub4].
@@ -732,7 +741,7 @@ Lemma entry_at_moved s s' k k' :
   WF s -> attrs_kept s s' -> lookup s' k' = lookup s k -> entry_at s' k' = entry_at s k.
 Proof.
   intros W Ha Hl. unfold entry_at. rewrite Hl. destruct (lookup s k) as [r|] eqn:E; [|reflexivity].
-  destruct (GWF_lookup_node _ _ _ _ _ _ W E) as (n & Hn). destruct (Ha r n Hn) as (n' & Hn' & Ea).
+  destruct (GWF_lookup_node _ _ _ _ _ _ W E) as (n & Hn). destruct Ha as (_ & _ & Ha). destruct (Ha r n Hn) as (n' & Hn' & Ea).
   rewrite Hn, Hn'. unfold attrs in Ea. inversion Ea. reflexivity.
 Qed.
 
